@@ -45,6 +45,7 @@ type KV struct {
 }
 
 type Pkg struct {
+	Kind     string // cone cases: named | faileddep | cleandep
 	Dir      string
 	Chain    [][]string // outermost first; HasChain[i] false = no checks key at that level
 	HasChain []bool
@@ -52,7 +53,7 @@ type Pkg struct {
 }
 
 type Case struct {
-	T string // filter | parse | merge | load | exit | cli
+	T string // filter | parse | merge | load | exit | cli | cone
 
 	All, Sel []string // filter (raw, mixed case); All also for load/exit/cli
 	Map      []KV     // filter: observed map
@@ -599,6 +600,80 @@ func genCLI(rnd *hx.Rand, exe, work string, nmods, nruns int, names []string) []
 	return cases
 }
 
+// genCone: patterns that name an importer but not the package it imports. app imports internal/dep whose
+// staticcheck.conf is malformed (config error), app2 imports internal/dep2 which has a type error (compile
+// error), app3 imports internal/ok which loads and has a problem of its own (not to be printed for ./app3).
+// The problems of every package are taken from one `./...` run; each pattern is run with all four formats.
+func genCone(exe, work string, names []string) []Case {
+	root := filepath.Join(work, "cone")
+	mod := "example.com/cone"
+	hx.WriteFile(filepath.Join(root, "go.mod"), "module "+mod+"\n\ngo 1.22\n")
+	imp := func(name, dep string) string {
+		return fmt.Sprintf("package %s\n\nimport %q\n\nfunc Use%s(x int) bool {\n\t%s.F()\n\treturn x == x\n}\n", name, mod+"/internal/"+dep, name, dep)
+	}
+	hx.WriteFile(filepath.Join(root, "app/app.go"), imp("app", "dep"))
+	hx.WriteFile(filepath.Join(root, "app2/app2.go"), imp("app2", "dep2"))
+	hx.WriteFile(filepath.Join(root, "app3/app3.go"), imp("app3", "ok"))
+	hx.WriteFile(filepath.Join(root, "internal/dep/dep.go"), "package dep\n\nfunc F() {}\n")
+	hx.WriteFile(filepath.Join(root, "internal/dep/staticcheck.conf"), "checks = [\"all\", oops\n")
+	hx.WriteFile(filepath.Join(root, "internal/dep2/dep.go"), "package dep2\n\nfunc F() {}\n\nvar broken int = \"not an int\"\n")
+	hx.WriteFile(filepath.Join(root, "internal/ok/ok.go"), "package ok\n\nfunc F() {}\n\nfunc G(x int) bool { return x != x }\n")
+	cache := filepath.Join(work, "sc-cache")
+	os.MkdirAll(cache, 0o777)
+	out, _ := runStaticcheck(exe, root, cache, []string{"-checks", "*", "-show-ignored", "-f", "json", "./..."})
+	base, err := parseJSON(out)
+	if err != nil {
+		fatal(err)
+	}
+	base = relTo(root, base)
+	byDir := map[string][]Problem{}
+	for _, r := range base {
+		dir := filepath.ToSlash(filepath.Dir(r.File))
+		if r.File == "" { // errors of the compiler carry the import path in the message: "# example.com/cone/internal/dep2"
+			dir = strings.TrimPrefix(strings.TrimPrefix(r.Msg, "# "+mod), "/")
+		}
+		byDir[dir] = append(byDir[dir], Problem{File: r.File, Line: r.Line, Col: r.Col, Cat: r.Cat, Msg: r.Msg, Ignored: r.Sev == "ignored"})
+	}
+	type pat struct {
+		arg  string
+		pkgs []Pkg
+	}
+	mk := func(kind, dir string) Pkg {
+		return Pkg{Kind: kind, Dir: dir, Chain: [][]string{nil}, HasChain: []bool{false}, Problems: byDir[dir]}
+	}
+	pats := []pat{
+		{"./app", []Pkg{mk("named", "app"), mk("faileddep", "internal/dep")}},
+		{"./app2", []Pkg{mk("named", "app2"), mk("faileddep", "internal/dep2")}},
+		{"./app3", []Pkg{mk("named", "app3"), mk("cleandep", "internal/ok")}},
+	}
+	var cases []Case
+	var argv [][]string
+	for _, p := range pats {
+		for _, f := range formats[:4] {
+			cases = append(cases, Case{T: "cone", All: names, Format: f, Pkgs: p.pkgs, Note: "cone " + p.arg})
+			argv = append(argv, []string{"-f", f, p.arg})
+		}
+	}
+	var wg sync.WaitGroup
+	sem := make(chan struct{}, 8)
+	for k := range cases {
+		wg.Add(1)
+		go func(k int) {
+			defer wg.Done()
+			sem <- struct{}{}
+			defer func() { <-sem }()
+			out, code := runStaticcheck(exe, root, cache, argv[k])
+			rs, err := parseOut(cases[k].Format, out)
+			if err != nil {
+				fatal(fmt.Errorf("%v: %v", argv[k], err))
+			}
+			cases[k].Out, cases[k].Exit = relTo(root, rs), code
+		}(k)
+	}
+	wg.Wait()
+	return cases
+}
+
 func main() {
 	out := flag.String("out", "", "output JSON")
 	work := flag.String("work", "", "scratch directory")
@@ -635,6 +710,7 @@ func main() {
 	}
 	if *exe != "" {
 		cases = append(cases, genCLI(rnd, *exe, *work, *nmods, *nruns, realNames)...)
+		cases = append(cases, genCone(*exe, *work, realNames)...)
 	}
 	hx.EmitJSON(*out, cases)
 }
